@@ -363,6 +363,7 @@ def C16(ctx):
     t = Tm.c16_t1(ctx, f)
     Tm.c16_r(ctx, f, t)
     Tm.c16_entry(ctx, f)
+    G.c16_r3(ctx, f)
     return dict(
         level="other",
         explanation="The (top, bottom) -> glyph decision table is extracted from print_line's MIR and is the documented bijection; "
